@@ -315,6 +315,61 @@ def d3_tail_only(chk: Check, ef: Effects) -> None:
     if not found:
         raise AnalysisError("padding loop of _get_optional_nodes not found")
     padding_fresh(chk, "C09-D3d", fi)
+    _appended_element_index(chk, fi)
+
+
+def _appended_element_index(chk: Check, fi: FuncInfo) -> None:
+    """An element created by a single append (the `[&anchor]` creation) is
+    recursed into under the index it actually received: len(C) - 1 taken
+    *after* the append."""
+    from sa.coords import reaching_def
+    from sa.model import enclosing_stmt, ancestors
+    chk.rule("C09-D3e", "the element created by a single append is "
+             "descended into with parent = the list and parentref = "
+             "len(list) - 1 evaluated after the append", floor=1)
+    for c in walk_local(fi.node):
+        if not (isinstance(c, ast.Call) and
+                src(c.func).endswith("append_list_element") and c.args):
+            continue
+        if any(isinstance(a, (ast.For, ast.While)) for a in ancestors(c)
+               if any(x is a for x in walk_local(fi.node)) and
+               a is not fi.node and _is_pad_loop(a)):
+            continue
+        st = enclosing_stmt(c)
+        if not (isinstance(st, ast.Assign) and
+                isinstance(st.targets[0], ast.Name)):
+            continue
+        ele, cont = st.targets[0].id, src(c.args[0])
+        recs = [r for r in _next_sibling_calls(st)
+                if r.args and src(r.args[0]) == ele]
+        text = "{} = append_list_element({}, ...)".format(ele, cont)
+        if not recs:
+            chk.fail("C09-D3e", fi, st, text,
+                     "the appended element is not what is descended into")
+            continue
+        r = recs[0]
+        kws = {k.arg: k.value for k in r.keywords}
+        ref = kws.get("parentref")
+        d = reaching_def(ref.id, r) if isinstance(ref, ast.Name) else ref
+        ok = kws.get("parent") is not None and \
+            src(kws["parent"]) == cont and d is not None and \
+            src(d).replace(" ", "") == "len({})-1".format(cont)
+        if ok:
+            chk.ok("C09-D3e", fi, r, text,
+                   "parentref = len({}) - 1 taken after the append".format(
+                       cont))
+        else:
+            chk.fail("C09-D3e", fi, r, text,
+                     "the index handed on for the appended element is not "
+                     "len({}) - 1 evaluated after the append (found `{}`): "
+                     "the write goes to a pre-existing element".format(
+                         cont, src(d) if d is not None else
+                         "a value computed before the append"))
+
+
+def _is_pad_loop(loop: ast.AST) -> bool:
+    return isinstance(loop, ast.For) and isinstance(loop.iter, ast.Call) \
+        and src(loop.iter.func) == "range"
 
 
 def padding_fresh(chk: Check, rid: str, fi: FuncInfo) -> None:
@@ -444,6 +499,10 @@ def run(chk: Check) -> None:
     d1_purity(chk, ef, cl)
     d2_guarded_creation(chk, ef)
     d3_tail_only(chk, ef)
+    from rules.c06 import falsy_rule
+    falsy_rule(chk, "C09-D4", "yamlpath/processor.py", 30,
+               doc_exprs={"self.data", "<.node>"})
+    falsy_rule(chk, "C09-D4n", "yamlpath/common/nodes.py", 10)
     # set add: member is the segment attribute
     for site in mutation_sites(opt):
         if site.how == ".add()" and ef.classify(site)[0] == "doc":
